@@ -355,6 +355,11 @@ impl Task {
 //@@ rw R7 `ctx . runtime . cache ( ) . store ( )` => `ctx.runtime.cache().store()`
 //@@ proof at=start
         proof { reveal(Heap::wf); }
+//@@ proof before=error#1
+                proof {
+                    //# B8-an-act-that-is-given-its-error-no-longer-waits-for-a-sub-process [C15,C06]
+                    assert(!h.tasks[task.id@].flags.dom().contains(consts::TASK_AUOT_COMPLETE@) || h.tasks[task.id@].flags[consts::TASK_AUOT_COMPLETE@]);
+                }
 //@@ spec
         requires old(h).wf(), wf_task(*old(h), **self), old(h).cur == self.id@
         ensures
